@@ -257,6 +257,7 @@ class Interp:
         self.bound = {}  # spec-level bound names (lambda params)
         self.unfolded = set()
         self.call_results = {}
+        self.odict_wf_done = set()
         self.call_ghosts = {}
         self.in_axiom = False
         self.defn_facts = []  # ground one-step unfoldings of recursive spec functions (definitional truths)
@@ -342,7 +343,19 @@ class Interp:
         self.st.heap[key] = so.store(self.heap_arrays(self.st, key, so), ref.t, val)
 
     def note_read(self, v):
-        """well-formed heap: any reference obtained by a read is allocated"""
+        """well-formed heap: any reference obtained by a read is allocated; an insertion-ordered dict read from the heap
+        satisfies its representation invariant (key list = duplicate-free enumeration of the keys)"""
+        if isinstance(v.sort, S.TDict) and v.sort.ordered:
+            key = tuple(t.get_id() for t in v.terms)
+            if key not in self.odict_wf_done and self.qdepth == 0:
+                self.odict_wf_done.add(key)
+                saved = self.spec
+                self.spec = False
+                try:
+                    self.assume_odict_wf_fact(v)
+                finally:
+                    self.spec = saved
+            return
         if self.spec:
             return
         if isinstance(v.sort, S.TRef):
@@ -529,6 +542,18 @@ class Interp:
         elif isinstance(v.sort, S.TTuple):
             for n in range(len(v.sort.elems)):
                 self.assume_wf_input(v.sort.item(v, n))
+
+    def assume_odict_wf_fact(self, d):
+        """like assume_odict_wf but recorded as a path-global fact (the value is immutable: it holds in every state)"""
+        st = self.st
+        tmp = State.__new__(State)
+        tmp.pc = []
+        self.st = tmp
+        try:
+            self.assume_odict_wf(d)
+        finally:
+            self.st = st
+        self.defn_facts.extend(tmp.pc)
 
     def assume_odict_wf(self, d):
         """ordered dict: key list is duplicate-free and lists exactly the keys"""
